@@ -273,6 +273,17 @@ func genFmt(r *rng, tier string) interface{} {
 		// a partially typed error marker, and words that merely end in its letters
 		in.Word += pick(r, []string{"E", "ER", "ERR", "EE", "RE", "EER", "RER", "ERRR", "RR", "xR", "EERR", "_E", "ERE"})
 	}
+	if len(in.Meta.Messages) > 0 && r.chance(12) {
+		// a real candidate that is *displayed* as the error marker but inserted behind the typed prefix
+		// (a segment of MultiParts, an element of a list, a value behind Prefix): the marker's own value must move on
+		in.Values = append(in.Values, fmtValue{Value: in.Word + "ERR", Display: "ERR", Tag: pick(r, tags)})
+		if r.chance(40) {
+			in.Values = append(in.Values, fmtValue{Value: in.Word + "ERR1", Display: "ERR1"})
+		}
+		if r.chance(30) {
+			in.Values = append(in.Values, fmtValue{Value: in.Word + "_", Display: "_"})
+		}
+	}
 	in.Meta.Nospace = pick(r, []string{"", "", "", "/", "/=", "*", ":", "a", "/ ", "é"})
 	if r.chance(30) && len(in.Values) > 0 {
 		// correlate with the candidates: the last character of some value (any repertoire)
